@@ -20,6 +20,10 @@ func genC19(seed uint64, r *rng.Rand) *Plan {
 		// calm cluster: only the Close matters
 		p.Faults, p.ConnFaults = nil, nil
 	}
+	if g.R.Chance(0.4) {
+		// slow dials: Close lands while a connection is being established
+		p.Faults = append(p.Faults, &Fault{On: "step", N: 1, Act: "dialdelay", Dur: []int{1, 5, 50, 400, 3000, 40000}[g.R.Intn(6)]})
+	}
 	// Close at a PRNG-chosen step, biased to the early windows (lookup, dial, probe)
 	n := []int{g.R.Range(1, 60), g.R.Range(1, 250), g.R.Range(1, 1500)}[g.R.Intn(3)]
 	p.Faults = append(p.Faults, &Fault{On: "step", N: n, Act: "close"})
